@@ -79,6 +79,13 @@ package rules
 //   B3 GlobalFilter: Validate with if-init errors in the other order; Handle with renamed
 //      locals, loads reordered, no comma-ok.
 //   B4 flow loop as `for i := 0; i < len(flow); i++`.
+//   Robustness pass (refactorings /verif/preserving/C02/r1..r4, all silent): rules are stated over the
+//   loop function TOGETHER WITH the same-package helpers it calls (c02ReachDefs: parameters of a
+//   helper with one call site name the call's operands; a helper-local handed out by return names
+//   the caller's variable; flow engine with Inline). Further variants kept silent: skip test / END
+//   test / filter-loop body / jumpIf loop and its body / Handle+namespace / jump lookup each moved
+//   into a helper, flow loop called through a method value, named results with bare return.
+//   Mutants re-run on the refactored shapes (r4 tree, helper tree) are still reported.
 //   P5 END test precomputed into a bool before the skip test but acted on after it;
 //   P6 skip and END tests as the cases of a tagless switch (in that order), END by early return.
 
@@ -87,6 +94,7 @@ import (
 	"go/constant"
 	"go/token"
 	"go/types"
+	"strings"
 
 	"golang.org/x/tools/go/cfg"
 	"golang.org/x/tools/go/packages"
@@ -106,6 +114,9 @@ type c02Anchors struct {
 	loopCons                                   string
 	loopObj                                    *types.Func
 	handle                                     *ast.CallExpr // node.filter.Handle(ctx)
+	siteFn                                     *flow.Func    // the function containing that call (loopFn or a helper it calls)
+	handleSite                                 ast.Node      // handle, or the call in loopFn through which it is reached
+	chain                                      []*flow.Func  // helpers between loopFn and the Handle call
 	aliasFn                                    *types.Func   // method of FlowNode naming a node at run time
 }
 
@@ -252,8 +263,31 @@ func c02Resolve(c *core.Ctx) *c02Anchors {
 		return nil
 	}
 	a.loopFn, a.handle, a.loopCons = loopSite.f, loopSite.call, loopSite.decl
+	a.siteFn, a.handleSite = loopSite.f, loopSite.call
 	c.Count("functions_analysed", 1)
 	a.loopObj, _ = pkg.TypesInfo.Defs[loopSite.fd.Name].(*types.Func)
+	// "extract function": the call may sit in a helper (runFilter) that the loop function calls
+	// from inside its loop. Walk up through single call sites until a loop encloses the site.
+	for up := 0; up < 4 && len(enclosingLoops(a.loopFn.Body, a.handleSite)) == 0; up++ {
+		callers := c02CallsOf(c, a.loopObj)
+		total := 0
+		for _, cl := range callers {
+			total += len(cl.calls)
+		}
+		if total == 0 {
+			break // an entry point without a loop: judged by R-C02-2
+		}
+		if total != 1 || relPkg(callers[0].f.Pkg.PkgPath) != c02pl || c02NonCallUses(c, a.loopObj) > 0 {
+			c.Undecide("R-C02-6", a.loopCons+"|only dynamic Filter.Handle call", pos(c, a.handle),
+				sprintf("Filter.Handle is called from helper %s, which has %d call sites (or is used as a value): cannot tell which loop drives it", a.loopCons, total))
+			return nil
+		}
+		a.chain = append([]*flow.Func{a.loopFn}, a.chain...)
+		cl := callers[0]
+		a.loopFn, a.loopCons, a.handleSite = cl.f, cl.cons, cl.calls[0]
+		a.loopObj, _ = pkg.TypesInfo.Defs[cl.f.Node.(*ast.FuncDecl).Name].(*types.Func)
+		c.Count("functions_analysed", 1)
+	}
 	if len(sites) == 1 && len(values) == 0 {
 		c.Discharge("R-C02-6", a.loopCons+"|only dynamic Filter.Handle call", pos(c, a.handle),
 			"exactly one dynamic call site of filters.Filter.Handle in the module's production code")
@@ -268,21 +302,95 @@ type c02Caller struct {
 	calls []*ast.CallExpr
 }
 
+// c02FuncValueLocals finds locals of fd that only ever hold fnObj as a function value and are only
+// called (`h := p.doHandle; h(..)`): calling them is calling fnObj. defs are the identifier uses of
+// fnObj that initialise such locals.
+func c02FuncValueLocals(p *packages.Package, fd *ast.FuncDecl, fnObj *types.Func) (locals map[types.Object]bool, defs map[*ast.Ident]bool) {
+	locals, defs = map[types.Object]bool{}, map[*ast.Ident]bool{}
+	isFn := func(e ast.Expr) *ast.Ident {
+		switch x := ast.Unparen(e).(type) {
+		case *ast.SelectorExpr:
+			if p.TypesInfo.Uses[x.Sel] == types.Object(fnObj) {
+				return x.Sel
+			}
+		case *ast.Ident:
+			if p.TypesInfo.Uses[x] == types.Object(fnObj) {
+				return x
+			}
+		}
+		return nil
+	}
+	cand := map[types.Object]*ast.Ident{}
+	ast.Inspect(fd.Body, func(n ast.Node) bool {
+		switch x := n.(type) {
+		case *ast.AssignStmt:
+			if len(x.Lhs) == len(x.Rhs) {
+				for i, r := range x.Rhs {
+					if use := isFn(r); use != nil {
+						if id, ok := ast.Unparen(x.Lhs[i]).(*ast.Ident); ok && p.TypesInfo.Defs[id] != nil {
+							cand[p.TypesInfo.Defs[id]] = use
+						}
+					}
+				}
+			}
+		case *ast.ValueSpec:
+			if len(x.Names) == len(x.Values) {
+				for i, r := range x.Values {
+					if use := isFn(r); use != nil && p.TypesInfo.Defs[x.Names[i]] != nil {
+						cand[p.TypesInfo.Defs[x.Names[i]]] = use
+					}
+				}
+			}
+		}
+		return true
+	})
+	if len(cand) == 0 {
+		return
+	}
+	d := c02NewDefs(flow.NewFunc(p, fd))
+	callFun := map[*ast.Ident]bool{}
+	ast.Inspect(fd.Body, func(n ast.Node) bool {
+		if call, ok := n.(*ast.CallExpr); ok {
+			if id, ok := ast.Unparen(call.Fun).(*ast.Ident); ok {
+				callFun[id] = true
+			}
+		}
+		return true
+	})
+	for o, use := range cand {
+		ok := d.n[o] == 1 && !d.taken[o]
+		for id, uo := range p.TypesInfo.Uses {
+			if uo == o && !callFun[id] {
+				ok = false
+			}
+		}
+		if ok {
+			locals[o] = true
+			defs[use] = true
+		}
+	}
+	return
+}
+
 func c02CallsOf(c *core.Ctx, fnObj *types.Func) []*c02Caller {
 	var out []*c02Caller
 	for _, p := range c.Prog.Module {
+		if p.Types != fnObj.Pkg() && !fnObj.Exported() {
+			continue
+		}
 		for _, file := range p.Syntax {
 			for _, d := range file.Decls {
 				fd, ok := d.(*ast.FuncDecl)
 				if !ok || fd.Body == nil {
 					continue
 				}
+				locals, _ := c02FuncValueLocals(p, fd, fnObj)
 				var cs []*ast.CallExpr
 				ast.Inspect(fd.Body, func(n ast.Node) bool {
 					if call, ok := n.(*ast.CallExpr); ok {
-						if sel, ok := ast.Unparen(call.Fun).(*ast.SelectorExpr); ok && p.TypesInfo.Uses[sel.Sel] == fnObj {
+						if sel, ok := ast.Unparen(call.Fun).(*ast.SelectorExpr); ok && p.TypesInfo.Uses[sel.Sel] == types.Object(fnObj) {
 							cs = append(cs, call)
-						} else if id, ok := ast.Unparen(call.Fun).(*ast.Ident); ok && p.TypesInfo.Uses[id] == fnObj {
+						} else if id, ok := ast.Unparen(call.Fun).(*ast.Ident); ok && (p.TypesInfo.Uses[id] == types.Object(fnObj) || locals[p.TypesInfo.Uses[id]]) {
 							cs = append(cs, call)
 						}
 					}
@@ -297,11 +405,14 @@ func c02CallsOf(c *core.Ctx, fnObj *types.Func) []*c02Caller {
 	return out
 }
 
-// c02Uses counts identifier uses of an object in the module that are not the callee of a call
-// (method values / function values escaping).
+// c02NonCallUses counts identifier uses of a function in the module that are neither the callee
+// of a call nor the initialisation of a local that is only ever called (function values escaping).
 func c02NonCallUses(c *core.Ctx, fnObj *types.Func) int {
 	n := 0
 	for _, p := range c.Prog.Module {
+		if p.Types != fnObj.Pkg() && !fnObj.Exported() {
+			continue
+		}
 		callee := map[*ast.Ident]bool{}
 		for _, file := range p.Syntax {
 			ast.Inspect(file, func(x ast.Node) bool {
@@ -315,9 +426,17 @@ func c02NonCallUses(c *core.Ctx, fnObj *types.Func) int {
 				}
 				return true
 			})
+			for _, d := range file.Decls {
+				if fd, ok := d.(*ast.FuncDecl); ok && fd.Body != nil {
+					_, defs := c02FuncValueLocals(p, fd, fnObj)
+					for id := range defs {
+						callee[id] = true
+					}
+				}
+			}
 		}
 		for id, o := range p.TypesInfo.Uses {
-			if o == fnObj && !callee[id] {
+			if o == types.Object(fnObj) && !callee[id] {
 				n++
 			}
 		}
@@ -331,8 +450,15 @@ func c02NonCallUses(c *core.Ctx, fnObj *types.Func) int {
 
 func c02FlowLoop(c *core.Ctx, a *c02Anchors) {
 	f, cons, handle := a.loopFn, a.loopCons, a.handle
-	d := c02NewDefs(f)
+	// the loop function together with the same-package helpers it calls: parameters of helpers
+	// with a single call site are names for the operands of that call
+	d := c02ReachDefs(f, 3)
+	hs := a.handleSite // the Handle call, or the call in f through which it is reached
 	fd := f.Node.(*ast.FuncDecl)
+	if d.lift(handle) != hs {
+		c.Undecide("R-C02-2", cons+"|single forward loop", pos(c, handle), "the helper chain from the flow loop to Filter.Handle is not a chain of single call sites")
+		return
+	}
 
 	// ---- the node whose filter is invoked, and the ctx handed to it
 	hsel := ast.Unparen(handle.Fun).(*ast.SelectorExpr)
@@ -346,10 +472,10 @@ func c02FlowLoop(c *core.Ctx, a *c02Anchors) {
 		c.Errorf("R-C02-1: anchor: Filter.Handle call does not have exactly one argument")
 		return
 	}
-	ctxObj := c02Obj(f, handle.Args[0])
+	ctxObj := d.rootObj(handle.Args[0])
 
 	// ---- R-C02-2: loop shape
-	loops := enclosingLoops(f.Body, handle)
+	loops := enclosingLoops(f.Body, hs)
 	shapeOK := true
 	shape := func(ok bool, what, bad string, at ast.Node) {
 		if !ok {
@@ -373,16 +499,40 @@ func c02FlowLoop(c *core.Ctx, a *c02Anchors) {
 				gotos = append(gotos, x)
 			}
 		case *ast.FuncLit:
-			if contains(x, handle) {
+			if contains(x, hs) {
 				lits = append(lits, x)
-			}
-		case *ast.CallExpr:
-			if a.loopObj != nil && f.Callee(x) == types.Object(a.loopObj) {
-				selfCalls++
 			}
 		}
 		return true
 	})
+	// helpers between the loop and the Handle call: no loop and no closure around the call chain
+	nested := 0
+	for _, g := range a.chain {
+		var inner ast.Node = handle
+		for _, h := range d.funcs {
+			if d.siteFn[h] == g && contains(h.Node, handle) {
+				inner = d.site[h]
+			}
+		}
+		if g != a.siteFn && inner == ast.Node(handle) {
+			continue
+		}
+		nested += len(enclosingLoops(g.Body, inner))
+		ast.Inspect(g.Body, func(n ast.Node) bool {
+			if x, ok := n.(*ast.FuncLit); ok && contains(x, inner) {
+				lits = append(lits, x)
+			}
+			return true
+		})
+	}
+	for _, g := range d.funcs {
+		for _, call := range calls(g.Body, true) {
+			if a.loopObj != nil && f.Callee(call) == types.Object(a.loopObj) {
+				selfCalls++
+			}
+		}
+	}
+	shape(nested == 0, "single forward loop", "the helper that calls Filter.Handle does so from a loop of its own, inside the flow loop: a node can be run more than once", hs)
 	shape(len(allLoops) == 1, "single forward loop", sprintf("the flow function contains %d loops: with a second loop nodes can be revisited (backward jump)", len(allLoops)), fd)
 	shape(len(gotos) == 0, "no goto", "goto in the flow function: control can move backwards in the flow", firstNode(gotos, fd))
 	shape(len(lits) == 0, "Handle not in closure", "Filter.Handle is called from a function literal: it can run outside the iteration that selected the node", firstNode(lits, fd))
@@ -497,15 +647,31 @@ func c02FlowLoop(c *core.Ctx, a *c02Anchors) {
 
 	// ---- role variables
 	// result: assigned from the Handle call
-	pm := parentMap(f.Body)
-	var resultObj types.Object
+	var resultObj, resultIn types.Object
 	var resultID *ast.Ident
-	if as, ok := pm[handle].(*ast.AssignStmt); ok && len(as.Rhs) == 1 && len(as.Lhs) == 1 {
-		resultObj = c02Obj(f, as.Lhs[0])
-		resultID, _ = ast.Unparen(as.Lhs[0]).(*ast.Ident)
+	switch as := d.parent(handle).(type) {
+	case *ast.AssignStmt:
+		if len(as.Rhs) == 1 && len(as.Lhs) == 1 {
+			resultIn = c02Obj(f, as.Lhs[0])
+			resultID, _ = ast.Unparen(as.Lhs[0]).(*ast.Ident)
+		}
+	case *ast.ValueSpec:
+		if len(as.Names) == 1 && len(as.Values) == 1 {
+			resultIn, resultID = f.Info.Defs[as.Names[0]], as.Names[0]
+		}
 	}
-	if resultObj == nil {
+	if resultIn == nil {
+		if _, isRet := d.parent(handle).(*ast.ReturnStmt); isRet && a.siteFn != f {
+			c.Undecide("R-C02-4", cons+"|returned result", pos(c, handle), "the helper returns Filter.Handle(..) directly; the result variable of the flow loop cannot be traced")
+			return
+		}
 		c.Violate("R-C02-4", cons+"|returned result", pos(c, handle), "the result of Filter.Handle is not assigned to a variable: it can neither select a jump nor become the pipeline result")
+		return
+	}
+	// the variable of the loop function that receives it (the helper's local handed out by return)
+	resultObj, resultID = d.outward(resultIn, resultID)
+	if o := d.owner(resultID); o != f {
+		c.Undecide("R-C02-4", cons+"|returned result", pos(c, handle), "the result of Filter.Handle stays inside helper "+a.siteFn.Name+": cannot identify the loop function's result variable")
 		return
 	}
 	// function results by type
@@ -539,22 +705,28 @@ func c02FlowLoop(c *core.Ctx, a *c02Anchors) {
 			return false
 		}
 		base, ok := d.fieldSel(ix.X, a.fJump)
-		return ok && d.norm(base) == N && c02Obj(f, ix.Index) == resultObj
+		if !ok || d.norm(base) != N {
+			return false
+		}
+		io := d.rootObj(ix.Index)
+		return io != nil && (io == resultObj || io == resultIn)
 	}
 	anyJumpIndex := 0
-	ast.Inspect(f.Body, func(n ast.Node) bool {
-		switch x := n.(type) {
-		case *ast.AssignStmt:
-			if isLookup(x) {
-				lookups = append(lookups, x)
+	for _, g := range d.funcs {
+		ast.Inspect(g.Body, func(n ast.Node) bool {
+			switch x := n.(type) {
+			case *ast.AssignStmt:
+				if isLookup(x) {
+					lookups = append(lookups, x)
+				}
+			case *ast.IndexExpr:
+				if _, ok := d.fieldSel(x.X, a.fJump); ok {
+					anyJumpIndex++
+				}
 			}
-		case *ast.IndexExpr:
-			if _, ok := d.fieldSel(x.X, a.fJump); ok {
-				anyJumpIndex++
-			}
-		}
-		return true
-	})
+			return true
+		})
+	}
 	if len(lookups) == 0 {
 		if anyJumpIndex > 0 {
 			c.Violate("R-C02-3", cons+"|jump lookup", pos(c, handle), "JumpIf is indexed, but not as N.JumpIf[result] of the node just run with the result just returned: the jump target is taken from the wrong node or key")
@@ -563,17 +735,57 @@ func c02FlowLoop(c *core.Ctx, a *c02Anchors) {
 		}
 		return
 	}
-	nextObj = c02Obj(f, lookups[0].Lhs[0])
-	nextID, _ = ast.Unparen(lookups[0].Lhs[0]).(*ast.Ident)
+	nextIn := c02Obj(f, lookups[0].Lhs[0])
+	nextInID, _ := ast.Unparen(lookups[0].Lhs[0]).(*ast.Ident)
 	for _, l := range lookups[1:] {
-		if c02Obj(f, l.Lhs[0]) != nextObj {
+		if c02Obj(f, l.Lhs[0]) != nextIn {
 			c.Undecide("R-C02-3", cons+"|jump lookup", pos(c, l), "JumpIf lookups are assigned to different variables")
 			return
 		}
 	}
-	if nextObj == nil || f.Info.Types[nextID].Type == nil {
+	if nextIn == nil || nextInID == nil {
 		c.Undecide("R-C02-3", cons+"|jump lookup", pos(c, lookups[0]), "the JumpIf lookup is not assigned to a variable")
 		return
+	}
+	// the loop function's variable that carries the pending target across iterations
+	nextObj, nextID = d.outward(nextIn, nextInID)
+	var nextHelperCalls []*ast.CallExpr // calls in the reach whose result is handed to next
+	if nextObj != nextIn {
+		if d.owner(nextID) != f {
+			c.Undecide("R-C02-3", cons+"|jump lookup", pos(c, lookups[0]), "the looked-up target stays inside a helper: cannot identify the loop function's pending-target variable")
+			return
+		}
+		// every value the helper(s) hand out for it must be "" or the looked-up target
+		cur := d.owner(nextInID)
+		for cur != nil && cur != f {
+			call := d.site[cur]
+			as, _ := d.parent(call).(*ast.AssignStmt)
+			if as == nil {
+				break
+			}
+			nextHelperCalls = append(nextHelperCalls, call)
+			for k, l := range as.Lhs {
+				lo := c02Obj(f, l)
+				if o, _ := d.outward(lo, nil); lo == nil || (o != nextObj && lo != nextObj) {
+					continue
+				}
+				rets, ok := d.returnsOf(cur, k)
+				for _, r := range rets {
+					if v, isConst := c02ConstString(f, r); isConst && v == "" {
+						continue
+					}
+					if ro, _ := d.outward(c02Obj(f, r), nil); ro != nil && ro == nextObj {
+						continue
+					}
+					ok = false
+				}
+				if !ok {
+					c.Undecide("R-C02-3", cons+"|jump lookup", pos(c, call), "helper "+cur.Name+" hands out a pending target that is neither \"\" nor the JumpIf lookup")
+					return
+				}
+			}
+			cur = d.siteFn[cur]
+		}
 	}
 	c.Discharge("R-C02-3", cons+"|jump lookup", pos(c, lookups[0]), "next is assigned from N.JumpIf[result] of the node just run")
 
@@ -581,6 +793,20 @@ func c02FlowLoop(c *core.Ctx, a *c02Anchors) {
 	kResEmpty := "eq:" + rRes + `==""`
 	kNextEmpty := "eq:" + rNext + `==""`
 	kNextEnd := "eq:" + rNext + "==" + a.endExact
+	// the helper-local name of the looked-up target (facts learned inside the helper)
+	kNextInEmpty := "eq:" + f.Render(nextInID) + `==""`
+	kNextInEnd := "eq:" + f.Render(nextInID) + "==" + a.endExact
+	isNext := func(e ast.Expr) bool {
+		o := d.rootObj(e)
+		if o == nil {
+			return false
+		}
+		if o == nextObj {
+			return true
+		}
+		oo, _ := d.outward(o, nil)
+		return oo == nextObj && o != nextIn
+	}
 
 	// alias comparisons: next ==/!= <non-constant operand>, or switch next { case operand }
 	type aliasCmp struct {
@@ -590,7 +816,7 @@ func c02FlowLoop(c *core.Ctx, a *c02Anchors) {
 	}
 	var aliasCmps []aliasCmp
 	var endKeys []string // keys of "N.FilterName == END"
-	ast.Inspect(f.Body, func(n ast.Node) bool {
+	cmpVisit := func(n ast.Node) bool {
 		switch x := n.(type) {
 		case *ast.BinaryExpr:
 			if x.Op != token.EQL && x.Op != token.NEQ {
@@ -598,7 +824,7 @@ func c02FlowLoop(c *core.Ctx, a *c02Anchors) {
 			}
 			for _, pair := range [][2]ast.Expr{{x.X, x.Y}, {x.Y, x.X}} {
 				l, r := pair[0], pair[1]
-				if c02Obj(f, l) == nextObj {
+				if isNext(l) {
 					if _, isConst := c02ConstString(f, r); !isConst {
 						aliasCmps = append(aliasCmps, aliasCmp{f.EqKey(x.X, x.Y), r, x})
 					}
@@ -615,7 +841,7 @@ func c02FlowLoop(c *core.Ctx, a *c02Anchors) {
 			}
 			for _, cl := range x.Body.List {
 				for _, e := range cl.(*ast.CaseClause).List {
-					if c02Obj(f, x.Tag) == nextObj {
+					if isNext(x.Tag) {
 						if _, isConst := c02ConstString(f, e); !isConst {
 							aliasCmps = append(aliasCmps, aliasCmp{f.EqKey(x.Tag, e), e, e})
 						}
@@ -629,7 +855,10 @@ func c02FlowLoop(c *core.Ctx, a *c02Anchors) {
 			}
 		}
 		return true
-	})
+	}
+	for _, g := range d.funcs {
+		ast.Inspect(g.Body, cmpVisit)
+	}
 	// the operand compared with next must be the node's alias method applied to N
 	for _, ac := range aliasCmps {
 		call, isCall := d.alias(ac.operand).(*ast.CallExpr)
@@ -657,31 +886,70 @@ func c02FlowLoop(c *core.Ctx, a *c02Anchors) {
 
 	// ---- assignments to result (R-C02-4, static half)
 	resWritersOK := true
-	for _, as := range c02Assigns(f, f.Body, resultObj) {
-		for i, l := range as.Lhs {
-			if c02Obj(f, l) != resultObj {
-				continue
-			}
-			good := false
-			if len(as.Lhs) == len(as.Rhs) {
-				r := ast.Unparen(as.Rhs[i])
-				if v, ok := c02ConstString(f, r); ok && v == "" {
-					good = true
+	var checkWriters func(o types.Object, depth int)
+	seenW := map[types.Object]bool{}
+	checkWriters = func(o types.Object, depth int) {
+		if o == nil || seenW[o] || depth > 4 {
+			return
+		}
+		seenW[o] = true
+		if d.taken[o] {
+			resWritersOK = false
+			c.Violate("R-C02-4", cons+"|writers of the result variable", pos(c, fd), "the result variable has its address taken or is assigned in a closure")
+		}
+		for _, g := range d.funcs {
+			for _, as := range c02Assigns(f, g.Body, o) {
+				for i, l := range as.Lhs {
+					if c02Obj(f, l) != o {
+						continue
+					}
+					good := false
+					var r ast.Expr
+					idx := 0
+					if len(as.Lhs) == len(as.Rhs) {
+						r = ast.Unparen(as.Rhs[i])
+					} else if len(as.Rhs) == 1 {
+						r, idx = ast.Unparen(as.Rhs[0]), i
+					}
+					if r != nil {
+						if v, ok := c02ConstString(f, r); ok && v == "" {
+							good = true
+						}
+						if r == ast.Expr(handle) {
+							good = true
+						}
+						// a helper that hands out "" or the variable assigned from Handle
+						if call, ok := r.(*ast.CallExpr); ok && !good {
+							if h := d.calleeOf(call); h != nil {
+								if rets, ok := d.returnsOf(h, idx); ok {
+									good = true
+									for _, x := range rets {
+										if v, isConst := c02ConstString(f, x); isConst && v == "" {
+											continue
+										}
+										ro := c02Obj(f, x)
+										if ro == nil {
+											good = false
+											break
+										}
+										if d.rootObj(x) == o {
+											continue // the caller's own value passed through
+										}
+										checkWriters(ro, depth+1)
+									}
+								}
+							}
+						}
+					}
+					if !good {
+						resWritersOK = false
+						c.Violate("R-C02-4", cons+"|writers of the result variable", pos(c, as), "the result variable is assigned something other than \"\" or the value returned by Filter.Handle: the pipeline result is no longer the result of the last filter run")
+					}
 				}
-				if r == ast.Expr(handle) {
-					good = true
-				}
-			}
-			if !good {
-				resWritersOK = false
-				c.Violate("R-C02-4", cons+"|writers of the result variable", pos(c, as), "the result variable is assigned something other than \"\" or the value returned by Filter.Handle: the pipeline result is no longer the result of the last filter run")
 			}
 		}
 	}
-	if d.taken[resultObj] {
-		resWritersOK = false
-		c.Violate("R-C02-4", cons+"|writers of the result variable", pos(c, fd), "the result variable has its address taken or is assigned in a closure")
-	}
+	checkWriters(resultObj, 0)
 	if resWritersOK {
 		c.Discharge("R-C02-4", cons+"|writers of the result variable", pos(c, handle), "result is written only by its \"\" initialisation and by Filter.Handle")
 	}
@@ -716,17 +984,59 @@ func c02FlowLoop(c *core.Ctx, a *c02Anchors) {
 		}
 		return false
 	}
+	// the keys name the same comparison in the vocabularies of the loop function and of helpers:
+	// false when at least one is known false and none is known true
 	isFalseAll := func(st *flow.State, keys []string) bool {
+		anyFalse := false
 		for _, k := range keys {
-			if !st.Is(k, flow.False) {
+			switch st.Get(k) {
+			case flow.True:
 				return false
+			case flow.False:
+				anyFalse = true
 			}
 		}
-		return true
+		return anyFalse
 	}
 	var aliasKeys []string
 	for _, ac := range aliasCmps {
 		aliasKeys = append(aliasKeys, ac.key)
+	}
+	// Parameters of helpers that are bound to next / result (`func pending(next, alias string) bool`):
+	// what a helper's return expression establishes is learned under the parameter's name. Those
+	// facts speak about the loop variable as long as it has not been assigned since the call
+	// (ev:…Dirty is set by every assignment and cleared when such a helper is entered).
+	const (
+		evNextDirty = "ev:nextDirty"
+		evResDirty  = "ev:resultDirty"
+	)
+	paramRenders := func(target types.Object) []string {
+		var out []string
+		for _, g := range d.funcs[1:] {
+			if d.site[g] == nil || g.Type.Params == nil {
+				continue
+			}
+			for _, fld := range g.Type.Params.List {
+				for _, id := range fld.Names {
+					if o := f.Info.Defs[id]; o != nil && o != target && d.n[o] == 1 && d.rootObj(id) == target {
+						out = append(out, f.Render(id))
+					}
+				}
+			}
+		}
+		return out
+	}
+	nextParams, resParams := paramRenders(nextObj), paramRenders(resultObj)
+	viaParams := func(st *flow.State, k, outer string, params []string, dirty string) flow.Val {
+		if len(params) == 0 || st.Is(dirty, flow.True) || !strings.HasPrefix(k, "eq:"+outer+"==") {
+			return flow.Unknown
+		}
+		for _, pr := range params {
+			if v := st.Get("eq:" + pr + "==" + k[len("eq:"+outer+"=="):]); v != flow.Unknown {
+				return v
+			}
+		}
+		return flow.Unknown
 	}
 	val := func(st *flow.State, k string) flow.Val {
 		// next=="" implies next!=END and vice versa
@@ -734,15 +1044,100 @@ func c02FlowLoop(c *core.Ctx, a *c02Anchors) {
 		if v != flow.Unknown {
 			return v
 		}
+		if v := viaParams(st, k, rNext, nextParams, evNextDirty); v != flow.Unknown {
+			return v
+		}
+		if v := viaParams(st, k, rRes, resParams, evResDirty); v != flow.Unknown {
+			return v
+		}
+		if k == kNextEnd && viaParams(st, kNextEmpty, rNext, nextParams, evNextDirty) == flow.True ||
+			k == kNextEmpty && viaParams(st, kNextEnd, rNext, nextParams, evNextDirty) == flow.True {
+			return flow.False
+		}
 		if k == kNextEnd && st.Is(kNextEmpty, flow.True) || k == kNextEmpty && st.Is(kNextEnd, flow.True) {
 			return flow.False
+		}
+		// the pending target was handed out by a helper in this iteration (ev:lookup is reset by
+		// any other assignment): what the helper learned about its local holds for it
+		if nextObj != nextIn && st.Is("ev:lookup", flow.True) {
+			ki, ko := "", ""
+			switch k {
+			case kNextEmpty:
+				ki, ko = kNextInEmpty, kNextInEnd
+			case kNextEnd:
+				ki, ko = kNextInEnd, kNextInEmpty
+			}
+			if ki != "" {
+				if v := st.Get(ki); v != flow.Unknown {
+					return v
+				}
+				if st.Is(ko, flow.True) {
+					return flow.False
+				}
+			}
 		}
 		return flow.Unknown
 	}
 	iterations, skips := 0, 0
 	nsCalls := 0
+	// sawEnd: the variable returned as the bool result (if the function keeps one)
+	var sawID *ast.Ident
+	ast.Inspect(f.Body, func(n ast.Node) bool {
+		switch x := n.(type) {
+		case *ast.FuncLit:
+			return false
+		case *ast.ReturnStmt:
+			if len(x.Results) > boolIdx {
+				if o := c02Obj(f, x.Results[boolIdx]); o != nil {
+					if _, isVar := o.(*types.Var); isVar {
+						sawID = ast.Unparen(x.Results[boolIdx]).(*ast.Ident)
+					}
+				}
+			}
+		}
+		return true
+	})
+	// When Handle sits in a helper, the facts of the loop function are judged where the helper is
+	// entered (the helper cannot assign the loop function's locals) and remembered as events.
+	const (
+		evSnapPending = "ev:snap:pendingOK"
+		evSnapNotEnd  = "ev:snap:notEnd"
+		evSnapSawF    = "ev:snap:sawEndFalse"
+		// established by a branch earlier in this iteration; remembered as events because the node
+		// of the iteration and (until it is assigned) the pending target do not change within an
+		// iteration, whereas the engine forgets facts about `node` when a helper taking it is entered
+		evNotEnd    = "ev:iter:notEnd"
+		evPendingOK = "ev:iter:pendingOK"
+	)
+	isNextHelperCall := func(e ast.Expr) bool {
+		for _, call := range nextHelperCalls {
+			if ast.Unparen(e) == ast.Expr(call) {
+				return true
+			}
+		}
+		return false
+	}
+	onChain := func(e ast.Expr) bool { // the Handle call or a call through which it is reached
+		var n ast.Node = handle
+		for i := 0; i < 6 && n != nil; i++ {
+			if ast.Unparen(e) == n {
+				return true
+			}
+			g := d.owner(n)
+			if g == nil || g == f {
+				return false
+			}
+			if call := d.site[g]; call != nil {
+				n = call
+			} else {
+				return false
+			}
+		}
+		return false
+	}
 	res := analyze(c, f, flow.Config{
 		NoHavoc: true,
+		Inline:  inlineSamePkg(f),
 		OnBlock: func(st *flow.State, b *cfg.Block) {
 			if b.Stmt != rng {
 				return
@@ -754,6 +1149,11 @@ func c02FlowLoop(c *core.Ctx, a *c02Anchors) {
 				st.Set(evNS, flow.False)
 				st.Set(evLookup, flow.False)
 				st.Set(evTouched, flow.False)
+				st.Set(evNotEnd, flow.False)
+				st.Set(evPendingOK, flow.False)
+				st.Set(evSnapPending, flow.False)
+				st.Set(evSnapNotEnd, flow.False)
+				st.Set(evSnapSawF, flow.False)
 				// what was learned about the previous node's alias says nothing about this node
 				for _, k := range aliasKeys {
 					st.Set(k, flow.Unknown)
@@ -801,17 +1201,43 @@ func c02FlowLoop(c *core.Ctx, a *c02Anchors) {
 				st.Set(evIn, flow.False)
 			}
 		},
+		AfterAssume: func(st *flow.State, cond ast.Expr, outcome bool) {
+			if !st.Is(evIn, flow.True) {
+				return
+			}
+			if len(endKeys) > 0 && isFalseAll(st, endKeys) {
+				st.Set(evNotEnd, flow.True)
+			}
+			if val(st, kNextEmpty) == flow.True || isTrue(st, aliasKeys) {
+				st.Set(evPendingOK, flow.True)
+			}
+		},
 		OnCall: func(st *flow.State, call *ast.CallExpr, callee types.Object, deferred bool) {
 			if call == handle {
 				st.Set(evHandled, flow.True)
 				st.Set(evLookup, flow.False)
 				return
 			}
+			if h := d.calleeOf(call); h != nil {
+				for _, arg := range call.Args {
+					switch d.rootObj(arg) {
+					case nextObj:
+						st.Set(evNextDirty, flow.False)
+					case resultObj:
+						st.Set(evResDirty, flow.False)
+					}
+				}
+			}
+			if ast.Node(call) == hs && st.Is(evIn, flow.True) {
+				st.Set(evSnapPending, boolToVal(val(st, kNextEmpty) == flow.True || isTrue(st, aliasKeys)))
+				st.Set(evSnapNotEnd, boolToVal(len(endKeys) > 0 && isFalseAll(st, endKeys)))
+				st.Set(evSnapSawF, boolToVal(sawID != nil && st.Is(f.VarKey(sawID), flow.False)))
+			}
 			if fo, ok := callee.(*types.Func); ok && fo.FullName() == useNS {
 				good := false
 				if len(call.Args) == 1 {
 					if base, ok := d.fieldSel(call.Args[0], a.fNS); ok && d.norm(base) == N {
-						if sel, ok := ast.Unparen(call.Fun).(*ast.SelectorExpr); ok && c02Obj(f, sel.X) == ctxObj && ctxObj != nil {
+						if sel, ok := ast.Unparen(call.Fun).(*ast.SelectorExpr); ok && d.rootObj(sel.X) == ctxObj && ctxObj != nil {
 							good = true
 						}
 					}
@@ -825,18 +1251,28 @@ func c02FlowLoop(c *core.Ctx, a *c02Anchors) {
 				return
 			}
 			for i, l := range as.Lhs {
-				switch c02Obj(f, l) {
-				case nextObj:
-					if isLookup(as) && i == 0 {
+				lo := c02Obj(f, l)
+				if lo == nil {
+					continue
+				}
+				switch {
+				case lo == nextObj || lo == nextIn:
+					st.Set(evNextDirty, flow.True)
+					st.Set(evPendingOK, flow.False)
+					switch {
+					case isLookup(as) && i == 0:
 						st.Set(evLookup, flow.True)
-					} else {
+					case len(as.Rhs) == 1 && isNextHelperCall(as.Rhs[0]):
+						// decided by the assignments inside the helper, which follow
+					default:
 						st.Set(evLookup, flow.False)
 					}
 					if !st.Is(evHandled, flow.True) && st.Is(evIn, flow.True) {
 						st.Set(evTouched, flow.True)
 					}
-				case resultObj:
-					if !(len(as.Rhs) == 1 && ast.Unparen(as.Rhs[0]) == ast.Expr(handle)) && st.Is(evIn, flow.True) && !st.Is(evHandled, flow.True) {
+				case lo == resultObj || lo == resultIn:
+					st.Set(evResDirty, flow.True)
+					if !(len(as.Rhs) == 1 && onChain(as.Rhs[0])) && st.Is(evIn, flow.True) && !st.Is(evHandled, flow.True) {
 						st.Set(evTouched, flow.True)
 					}
 				}
@@ -846,9 +1282,11 @@ func c02FlowLoop(c *core.Ctx, a *c02Anchors) {
 	if res == nil {
 		return
 	}
-	for _, call := range calls(f.Body, true) {
-		if calleeFull(f, call) == useNS {
-			nsCalls++
+	for _, g := range d.funcs {
+		for _, call := range calls(g.Body, true) {
+			if calleeFull(f, call) == useNS {
+				nsCalls++
+			}
 		}
 	}
 
@@ -859,28 +1297,18 @@ func c02FlowLoop(c *core.Ctx, a *c02Anchors) {
 		return
 	}
 	var badNS, badPending, badEnd, badSaw *flow.State
-	// sawEnd: the bool result returned — find its variable from the return statements
-	var sawID *ast.Ident
-	for _, ex := range res.Exits {
-		if ex.Return != nil && len(ex.Return.Results) > boolIdx {
-			if o := c02Obj(f, ex.Return.Results[boolIdx]); o != nil {
-				if _, isVar := o.(*types.Var); isVar {
-					sawID = ast.Unparen(ex.Return.Results[boolIdx]).(*ast.Ident)
-				}
-			}
-		}
-	}
 	for _, st := range states {
 		if !st.Is(evNS, flow.True) && badNS == nil {
 			badNS = st
 		}
-		if !(val(st, kNextEmpty) == flow.True || isTrue(st, aliasKeys)) && badPending == nil {
+		viaHelper := ast.Node(handle) != hs
+		if !(val(st, kNextEmpty) == flow.True || isTrue(st, aliasKeys) || st.Is(evPendingOK, flow.True) || (viaHelper && st.Is(evSnapPending, flow.True))) && badPending == nil {
 			badPending = st
 		}
-		if !(len(endKeys) > 0 && isFalseAll(st, endKeys)) && badEnd == nil {
+		if !((len(endKeys) > 0 && isFalseAll(st, endKeys)) || st.Is(evNotEnd, flow.True) || (viaHelper && st.Is(evSnapNotEnd, flow.True))) && badEnd == nil {
 			badEnd = st
 		}
-		if sawID != nil && !st.Is(f.VarKey(sawID), flow.False) && badSaw == nil {
+		if sawID != nil && !(st.Is(f.VarKey(sawID), flow.False) || (viaHelper && st.Is(evSnapSawF, flow.True))) && badSaw == nil {
 			badSaw = st
 		}
 	}
@@ -953,7 +1381,7 @@ func c02FlowLoop(c *core.Ctx, a *c02Anchors) {
 			}
 			// an END node ends the flow only when it is *reached*: with a jump to another
 			// node pending it lies between the jumping node and its target and is skipped
-			if jEnd && !(val(st, kNextEmpty) == flow.True || isTrue(st, aliasKeys)) && badEndJump == nil {
+			if jEnd && !(val(st, kNextEmpty) == flow.True || isTrue(st, aliasKeys) || st.Is(evPendingOK, flow.True)) && badEndJump == nil {
 				badEndJump = ex
 			}
 			if bv != flow.True && badEarlyVal == nil {
@@ -1034,13 +1462,20 @@ func c02Namespace(c *core.Ctx, a *c02Anchors, useNS string) {
 	}
 	sites, outside := 0, 0
 	writers := 0
+	// the flow loop and the helpers it reaches (the call may have been extracted with Handle)
+	allowed := map[string]bool{a.loopCons: true}
+	for _, g := range reach(a.loopFn, 3) {
+		if fd, ok := g.Node.(*ast.FuncDecl); ok {
+			allowed[declName(g.Pkg, fd)] = true
+		}
+	}
 	eachFunc(c, func(pkg *packages.Package, fd *ast.FuncDecl) {
 		f := flow.NewFunc(pkg, fd)
 		name := declName(pkg, fd)
 		for _, call := range calls(fd.Body, true) {
 			if calleeFull(f, call) == useNS {
 				sites++
-				if name != a.loopCons {
+				if !allowed[name] {
 					outside++
 					c.Violate("R-C02-1", name+"|UseNamespace call", pos(c, call), "ctx.UseNamespace is called outside the flow loop: the namespace a filter runs in can differ from the one its flow node configures")
 				}
